@@ -120,6 +120,12 @@ def evaluate(case, ctx):
                 if key in novel_chains:
                     sig = "C04:two-novel-transcripts-share-intron-chain"
                     sig += ":mono-intron" if len(ch) == 1 else ":multi-intron"
+                    other = tt[novel_chains[key]]["exons"]
+                    if len(ch) == 1 and (abs(other[0][0] - ex[0][0]) > 50 or abs(other[-1][1] - ex[-1][1]) > 50):
+                        # root cause of a known finding: 2-exon models are never compared with each other
+                        # (detect_similar_isoforms skips them), so one intron with two distant ends gives two models;
+                        # two 2-exon models with the same ends would be something else
+                        sig += ":ends-more-than-50bp-apart"
                     if sc.get("split_locus") and sum(1 for ra, rb in split_regions
                                                      if ra <= ch[-1][1] and rb >= ch[0][0]) >= 2:
                         # root cause of a known finding: models are built per processing region and never compared
